@@ -10,7 +10,7 @@ import (
 func TestGeneratedProgramsTypecheck(t *testing.T) {
 	n := 0
 	rapid.Check(t, func(t *rapid.T) {
-		p := Generate(t, WildProfile())
+		p := Generate(t, WildProfile(nil))
 		_, err := core.LoadSource(map[string]string{"main.go": p.Main, "prelude.go": AnalysedPrelude})
 		if err != nil {
 			t.Fatalf("%v\n%s", err, p.Main)
